@@ -6,16 +6,16 @@ import Proofs.C12
 namespace PfC13
 open Ring C12 C13
 
-/-- every `InstanceDesc` field except State / Timestamp (the "states and timestamps") and Versions. -/
-def key (i : Inst) : String × String × String × List Nat × Int × Int × Bool :=
-  (i.id, i.addr, i.zone, i.tokens, i.regTs, i.roTs, i.ro)
+/-- every `InstanceDesc` field except State / Timestamp (the "states and timestamps"). -/
+def key (i : Inst) : String × String × String × List Nat × Int × Int × Bool × List (Nat × Nat) :=
+  (i.id, i.addr, i.zone, i.tokens, i.regTs, i.roTs, i.ro, i.versions)
 
 /-- canonical descriptor: map entries in strictly ascending id order (the model's representation of a Go map). -/
 def Canon (d : Desc) : Prop := (d.map (·.id)).Pairwise (· < ·)
 
 theorem instCompare_some {a b : Inst} {e : Bool} (h : instCompare a b = some e) :
     a.addr = b.addr ∧ a.zone = b.zone ∧ a.regTs = b.regTs ∧ a.ro = b.ro ∧ a.roTs = b.roTs ∧ a.tokens = b.tokens ∧
-      e = (a.ts == b.ts && a.state == b.state) := by
+      e = (a.ts == b.ts && a.state == b.state) ∧ a.versions = b.versions := by
   unfold instCompare at h
   split at h; · cases h
   split at h; · cases h
@@ -24,9 +24,10 @@ theorem instCompare_some {a b : Inst} {e : Bool} (h : instCompare a b = some e) 
   split at h; · cases h
   split at h; · cases h
   split at h; · cases h
-  rename_i h1 h2 h3 h4 h5 _ h7
-  simp only [bne_iff_ne, ne_eq, Decidable.not_not] at h1 h2 h3 h4 h5 h7
-  refine ⟨h1, h2, h3, h4, h5, h7, ?_⟩
+  split at h; · cases h
+  rename_i h1 h2 h3 h4 h5 h6 _ h8
+  simp only [bne_iff_ne, ne_eq, Decidable.not_not] at h1 h2 h3 h4 h5 h6 h8
+  refine ⟨h1, h2, h3, h4, h5, h8, ?_, h6⟩
   cases h; rfl
 
 theorem get?_some {d : Desc} {id : String} {y : Inst} (h : d.get? id = some y) : y ∈ d ∧ y.id = id := by
@@ -158,7 +159,7 @@ theorem forall₂_map_eq {β : Type} (f : Inst → β) : ∀ (a b : Desc), All2 
   | cons h1 _ ih => simp [h1, ih]
 
 /-- **compare_sound**: if `RingCompare` does not say `Different`, the two descriptors agree on every
-field except State, Timestamp and Versions, instance by instance. -/
+field except State and Timestamp, instance by instance. -/
 theorem compare_sound (a b : Desc) (ha : Canon a) (hb : Canon b) (h : ringCompare a b ≠ .different) :
     a.map key = b.map key := by
   unfold ringCompare at h
@@ -174,7 +175,7 @@ theorem compare_sound (a b : Desc) (ha : Canon a) (hb : Canon b) (h : ringCompar
       have hf := instCompare_some hc
       refine ⟨y, hy.1, hy.2, ?_⟩
       simp only [key, Prod.mk.injEq]
-      exact ⟨hy.2.symm, hf.1, hf.2.1, hf.2.2.2.2.2.1, hf.2.2.1, hf.2.2.2.2.1, hf.2.2.2.1⟩)
+      exact ⟨hy.2.symm, hf.1, hf.2.1, hf.2.2.2.2.2.1, hf.2.2.1, hf.2.2.2.2.1, hf.2.2.2.1, hf.2.2.2.2.2.2.2⟩)
     exact forall₂_map_eq key a b (this.imp (fun h => h.2))
 
 /-- `Equal` additionally means equal states and timestamps. -/
@@ -193,17 +194,17 @@ theorem compare_equal_sound (a b : Desc) (ha : Canon a) (hb : Canon b) (h : ring
       have hf := instCompare_some hc
       refine ⟨y, hy.1, hy.2, ?_⟩
       have hts : x.ts = y.ts ∧ x.state = y.state := by
-        have := hf.2.2.2.2.2.2
+        have := hf.2.2.2.2.2.2.1
         simpa using this.symm
       simp only [key, Prod.mk.injEq]
-      exact ⟨⟨hy.2.symm, hf.1, hf.2.1, hf.2.2.2.2.2.1, hf.2.2.1, hf.2.2.2.2.1, hf.2.2.2.1⟩, hts.1, hts.2⟩)
+      exact ⟨⟨hy.2.symm, hf.1, hf.2.1, hf.2.2.2.2.2.1, hf.2.2.1, hf.2.2.2.2.1, hf.2.2.2.1, hf.2.2.2.2.2.2.2⟩, hts.1, hts.2⟩)
     exact forall₂_map_eq _ a b (this.imp (fun h => h.2))
 
 theorem core_of_key (a b : Desc) (h : a.map key = b.map key) : a.map core = b.map core := by
-  have : ∀ i : Inst, core i = (fun k : String × String × String × List Nat × Int × Int × Bool =>
-      (⟨k.1, k.2.2.1, k.2.2.2.1, k.2.2.2.2.1, k.2.2.2.2.2.1, k.2.2.2.2.2.2⟩ : CInst)) (key i) := by
+  have : ∀ i : Inst, core i = (fun k : String × String × String × List Nat × Int × Int × Bool × List (Nat × Nat) =>
+      (⟨k.1, k.2.2.1, k.2.2.2.1, k.2.2.2.2.1, k.2.2.2.2.2.1, k.2.2.2.2.2.2.1⟩ : CInst)) (key i) := by
     intro i; rfl
-  have e : ∀ l : Desc, l.map core = (l.map key).map (fun k => (⟨k.1, k.2.2.1, k.2.2.2.1, k.2.2.2.2.1, k.2.2.2.2.2.1, k.2.2.2.2.2.2⟩ : CInst)) := by
+  have e : ∀ l : Desc, l.map core = (l.map key).map (fun k => (⟨k.1, k.2.2.1, k.2.2.2.1, k.2.2.2.2.1, k.2.2.2.2.2.1, k.2.2.2.2.2.2.1⟩ : CInst)) := by
     intro l; rw [List.map_map]; apply List.map_congr_left; intro i _; exact this i
   rw [e a, e b, h]
 
